@@ -182,6 +182,7 @@ def to_verus(e):
 
 def parse_file(path):
     lemmas, defs = [], {}
+    imported = set()
     cur = None
     for raw in open(path).read().split("\n"):
         ln = raw.strip()
@@ -189,7 +190,12 @@ def parse_file(path):
             continue
         cmd, _, rest = ln.partition(" ")
         rest = rest.strip()
-        if cmd == "def":
+        if cmd == "use":
+            _, d2 = parse_file(os.path.join(os.path.dirname(path), rest))
+            for k2, v2 in d2.items():
+                defs[k2] = v2
+                imported.add(k2)
+        elif cmd == "def":
             # def name(a, b) = expr
             m = re.match(r"^([A-Za-z_][A-Za-z0-9_]*)\(([^)]*)\)\s*=\s*(.*)$", rest)
             if not m:
@@ -206,6 +212,7 @@ def parse_file(path):
             cur["goal"] = parse_expr(rest)
         else:
             raise ValueError("lemma DSL: unknown line %r" % ln)
+    parse_file.imported = imported
     return lemmas, defs
 
 
@@ -224,7 +231,10 @@ def verus_axioms(path):
     """text of the external_body proof fns for every lemma of a .lem file (defs become open spec fns)"""
     lemmas, defs = parse_file(path)
     out = ["// ---- lemma DSL import: %s — each fn below is discharged outside Verus as QF_NRA (engine L)" % os.path.basename(path)]
+    imported = set(parse_file.imported)
     for name, (params, body) in defs.items():
+        if name in imported:
+            continue
         out.append("pub open spec fn %s(%s) -> real { %s }" % (name, ", ".join("%s: real" % p for p in params), to_verus(body)))
     for lem in lemmas:
         out.append("#[verifier::external_body]")
@@ -236,7 +246,7 @@ def verus_axioms(path):
     return "\n".join(out)
 
 
-SOLVERS = [("z3", ["z3", "-smt2", "-T:60"]), ("cvc5", ["cvc5", "--lang=smt2", "--tlimit=60000"]), ("z3-new", ["z3-new", "-smt2", "-T:60"])]
+SOLVERS = [("z3", ["z3", "-smt2", "-T:60"]), ("cvc5", ["cvc5", "--lang=smt2", "--tlimit=20000"]), ("z3-new", ["z3-new", "-smt2", "-T:60"])]
 
 
 def solve(query_path, which):
@@ -252,12 +262,43 @@ def solve(query_path, which):
     return "nosolver", 0.0
 
 
+def to_sympy(e):
+    k = e[0]
+    if k == "var":
+        return e[1]
+    if k == "num":
+        return "Rational('%s')" % e[1]
+    if k == "neg":
+        return "(-%s)" % to_sympy(e[1])
+    return "(%s %s %s)" % (to_sympy(e[1]), k, to_sympy(e[2]))
+
+
+def sympy_equalities(items):
+    """items: list of (key, vars, lhs, rhs) — exact normalisation in Q(vars) with sympy (python3-vt)"""
+    if not items:
+        return {}
+    prog = ["import sympy, json", "from sympy import Rational", "out = {}"]
+    for key, vs, l, r in items:
+        prog.append("%s = sympy.symbols('%s')" % (", ".join(vs) + ("," if len(vs) == 1 else ""), " ".join(vs)))
+        prog.append("out[%r] = bool(sympy.cancel(sympy.together((%s) - (%s))) == 0)" % (key, l, r))
+    prog.append("print(json.dumps(out))")
+    try:
+        p = subprocess.run(["python3-vt", "-c", "\n".join(prog)], capture_output=True, text=True, timeout=120)
+        import json
+        return json.loads(p.stdout.strip().split("\n")[-1])
+    except Exception:
+        return {}
+
+
 def run(files, pid, build):
-    """files: list of .lem files (relative to contracts/lemmas). Every lemma must be unsat on z3 and cvc5
-    (z3-new breaks a tie when one of them answers unknown/timeout)."""
+    """files: list of .lem files (relative to contracts/lemmas). A lemma is discharged when at least two
+    independent back ends (z3 4.8, z3 5.1, cvc5; for equalities also exact normalisation in Q(vars) by sympy)
+    agree on unsat / identity and none answers sat."""
+    from concurrent.futures import ThreadPoolExecutor
     o = dict(engine="L", name=",".join(files), bounded=False, failures=[], undecided=[], obligations=0, discharged=0, samples=[], cmds=[], solver_ms=0.0)
     qdir = os.path.join(build, "lemmas")
     os.makedirs(qdir, exist_ok=True)
+    jobs = []
     for f in files:
         path = os.path.join(VERIF, "contracts", "lemmas", f)
         try:
@@ -266,33 +307,51 @@ def run(files, pid, build):
             o["undecided"].append("lemma file %s: %s" % (f, e))
             continue
         for lem in lemmas:
-            o["obligations"] += 1
             q = os.path.join(qdir, "%s__%s.smt2" % (f.replace(".lem", ""), lem["name"]))
             open(q, "w").write(smt_query(lem, defs))
-            answers = {}
-            for s in ("z3", "cvc5"):
-                a, dt = solve(q, s)
-                answers[s] = (a, dt)
-                o["solver_ms"] += dt * 1000
-            verdicts = [a for a, _ in answers.values()]
-            if any(a not in ("unsat", "sat") for a in verdicts):
-                a, dt = solve(q, "z3-new")
-                answers["z3-new"] = (a, dt)
-                o["solver_ms"] += dt * 1000
-                verdicts = [a for a, _ in answers.values()]
-            n_unsat = verdicts.count("unsat")
-            n_sat = verdicts.count("sat")
-            sample = dict(obligation="L:%s:%s" % (f, lem["name"]), backends={k: dict(answer=v[0], s=round(v[1], 3)) for k, v in answers.items()})
-            if n_sat:
-                # a lemma does not depend on /repo: `sat` means the contract vocabulary is wrong -> undecided, never an alarm
-                o["undecided"].append("lemma %s:%s is refuted (sat) — contract vocabulary error" % (f, lem["name"]))
-                sample["discharged"] = False
-            elif n_unsat >= 2:
-                o["discharged"] += 1
-                sample["discharged"] = True
-            else:
-                o["undecided"].append("lemma %s:%s not settled by two back ends: %s" % (f, lem["name"], {k: v[0] for k, v in answers.items()}))
-                sample["discharged"] = False
-            o["samples"].append(sample)
-    o["cmds"] = ["z3 -smt2 <query>", "cvc5 --lang=smt2 <query>"]
+            jobs.append((f, lem, defs, q))
+    eqs = []
+    for f, lem, defs, q in jobs:
+        g = inline(lem["goal"], defs)
+        if g[0] == "==":
+            try:
+                eqs.append(("%s:%s" % (f, lem["name"]), lem["vars"], to_sympy(g[1]), to_sympy(g[2])))
+            except Exception:
+                pass
+
+    def one(job):
+        f, lem, defs, q = job
+        ans = {}
+        for sname in ("z3", "z3-new"):
+            ans[sname] = solve(q, sname)
+        if [a for a, _ in ans.values()].count("unsat") < 2:
+            ans["cvc5"] = solve(q, "cvc5")
+        return ans
+
+    with ThreadPoolExecutor(max_workers=8) as ex:
+        futs = [ex.submit(one, j) for j in jobs]
+        sym = sympy_equalities(eqs)
+        results = [fu.result() for fu in futs]
+    for (f, lem, defs, q), answers in zip(jobs, results):
+        o["obligations"] += 1
+        key = "%s:%s" % (f, lem["name"])
+        verdicts = [a for a, _ in answers.values()]
+        o["solver_ms"] += sum(dt for _, dt in answers.values()) * 1000
+        n_unsat = verdicts.count("unsat") + (1 if sym.get(key) else 0)
+        n_sat = verdicts.count("sat")
+        sample = dict(obligation="L:" + key, backends={k: dict(answer=v[0], s=round(v[1], 3)) for k, v in answers.items()})
+        if key in sym:
+            sample["backends"]["sympy-field"] = dict(answer="identity" if sym[key] else "not-identical")
+        if n_sat:
+            # a lemma does not depend on /repo: `sat` means the contract vocabulary is wrong -> undecided, never an alarm
+            o["undecided"].append("lemma %s is refuted (sat) — contract vocabulary error" % key)
+            sample["discharged"] = False
+        elif n_unsat >= 2:
+            o["discharged"] += 1
+            sample["discharged"] = True
+        else:
+            o["undecided"].append("lemma %s not settled by two back ends: %s" % (key, {k: v[0] for k, v in answers.items()}))
+            sample["discharged"] = False
+        o["samples"].append(sample)
+    o["cmds"] = ["z3 -smt2 -T:60 <query.smt2>", "z3-new -smt2 -T:60 <query.smt2>", "cvc5 --lang=smt2 --tlimit=20000 <query.smt2>", "python3-vt sympy.cancel(lhs-rhs)==0"]
     return o
